@@ -12,7 +12,7 @@ CLAIMS = {
  "C11": ("other", "DESIGN.md §3 C11", "SSA write-effect analysis + pooled-buffer confinement (typestate/ownership) + unsafe-view operand rooting",
    "Structural interference-freedom of package otp in every build configuration: no function outside package initialisation writes package-level state (write effects propagated through callees, closures and parameter aliasing); every sync.Pool buffer is confined to the call that took it (never returned, stored, captured, re-sliced upward, used with an un-reset length or used after a non-deferred Put); every no-copy string view is over a per-call allocation that is not written afterwards; exported results are not rooted at package state or pools; no goroutine/channel/lock in the library. These are necessary conditions of the property decided on all paths; they are not a dynamic race detector.",
    "Trusted: go/ssa, sync.Pool semantics, the table of non-retaining callees. Assumes callers do not assign exported package variables. Does not decide the Go memory model or runtime."),
- "C09": ("proof", "DESIGN.md §3 C09", "whole-program taint / information-flow analysis over SSA with inclusion-based points-to",
+ "C09": ("proof", "DESIGN.md §3 C09", "whole-program taint / information-flow analysis over SSA with inclusion-based points-to, plus statelessness and single-comparison rules for the implicit channels",
    "Every comparison, map lookup and external call that an HMAC-derived value can reach — on every path of every function of otp, wasm and internal/app, in the native and js/wasm configurations — is an obligation; it is discharged only if the other operand is a constant / carries no caller data, or the callee is a constant-time comparator (crypto/subtle, hmac.Equal) or a pure formatting/output sink. The analysis is an over-approximation (flow- and context-insensitive heap, explicit flows), so no report means no explicit flow from HMAC output and caller data into an early-exit comparison exists; a floor requires each configuration's constant-time site to be reached by both labels.",
    "Trusted: go/ssa + VTA call graph, stdlib summaries (result depends on all arguments), crypto/subtle being constant-time, fasthttp request-reader/sink summaries. Not covered: micro-architectural timing, implicit flows, the checked-in otp.wasm binary."),
  "C12": ("other", "DESIGN.md §3 C12", "SSA write-effect analysis rooted by origin terms (parameter / package-variable / pool / local)",
@@ -30,11 +30,11 @@ CLAIMS = {
  "C02": ("other", "DESIGN.md §3 C02", "origin-term matching of the time-step function and of the derivation call arguments bound from the entry points; constant evaluation of defaults",
    "TimeCounterFunc is uint64(t.Unix())/uint64(period) and is never reassigned; both TOTP entry points reach exactly the HOTP derivation with counter = TimeCounterFunc(t, period), t used nowhere else, period resolved identically (0 and nil → 30 s) in generation, validation and URL building; digits/algorithm/defaults resolved identically.",
    "The HOTP value is C01's subject. Pre-epoch instants and a caller-replaced TimeCounterFunc are outside the property."),
- "C03": ("other", "DESIGN.md §3 C03", "loop-shape recognition (induction variable, bounds, guard) + interval analysis of the gate + origin terms bound through closures for the comparison core",
-   "The window loop is i = -s..+s step 1 with s exactly in [0,10] by a dominating gate, step i validates counter c+i with the unsigned underflow guard c < uint64(-i), acceptance only under that step's verdict; the comparison core compares the whole submitted string in constant time with the whole result of the same derivation generation uses (same key, digits, algorithm), after the length test; defaults 6/SHA-1/2. Structural conditions each of which is necessary for the stated 'iff'.",
+ "C03": ("other", "DESIGN.md §3 C03", "window analysis by linear offset coverage (validation sites reached through closures/helpers, unit-stride induction, linear bounds and counter argument, path conditions as restrictions or the underflow guard, enumerated for the gated sizes 0..10) + interval analysis of the gate + origin terms bound along the call chain for the comparison core",
+   "The window size is exactly in [0,10] where the window is walked (dominating gate); for each such size the counters handed to the per-step validation — over all validation sites and loop shapes — are exactly centre-s..centre+s around the caller's counter; every step that can fall below zero is validated only under the guard 'step counter ≥ 0' compared without wrap-around; acceptance only under a value carrying that step's verdict; the comparison core compares the whole submitted string in constant time with the whole result of the same derivation generation uses (same key, digits, algorithm), after the length test; defaults 6/SHA-1/2. Structural conditions each of which is necessary for the stated 'iff'.",
    "Together with C01. Does not show that codes of different counters differ (not claimed)."),
- "C04": ("other", "DESIGN.md §3 C04", "same as C03 on ValidateTOTP plus period-resolution agreement",
-   "Skew exactly in [0,10] at the loop (bounded work), one loop i=-s..+s, step i validates TimeCounterFunc(t,period)+i, acceptance only under the step verdict, shared comparison core, defaults {6, SHA-1, 30 s, 0}, period resolution identical in generation and validation.",
+ "C04": ("other", "DESIGN.md §3 C04", "same window analysis as C03 on ValidateTOTP (no underflow skip: the window is modulo 2^64) plus period-resolution agreement",
+   "Skew exactly in [0,10] where the window is walked (bounded work), the steps validated are exactly TimeCounterFunc(t,period)-s..+s for every size, no step is skipped near zero, acceptance only under the step verdict, shared comparison core, defaults {6, SHA-1, 30 s, 0}, period resolution identical in generation and validation.",
    "Together with C01/C02. The property's domain has the whole window at or after step 0."),
  "C15": ("other", "DESIGN.md §3 C15", "exhaustive constant-table evaluation of the registry against an independent RFC 6287 name parser; table identity; parser token tables; dominance of Validate()==nil",
    "All 45 registry entries are evaluated from the syntax tree and compared field by field with what an independent parser of the name says (exhaustive for the advertised names); the four lookup functions read that one never-written table; NewRawSuite reports the given string as name; the parser's token tables, unit scaling without narrowing, validate-before-return, whole-token version equality and exactly three parts are checked; no memoisation on the path.",
@@ -46,8 +46,8 @@ CLAIMS = {
    "Generation and validation reach exactly one call of the same derivation with (DecodeSecret(secret), the caller's suite, the caller's input); the constant-time comparison is whole-string against that call's result, after a length test against Config().Digits of that suite, reached only when the derivation returned no error; every return on the path is a well-formed verdict. Equivalence then follows from sharing, with no numerical argument.",
    "Trusted: go/ssa. The derivation's value is C05's subject."),
  "C07": ("other", "DESIGN.md §3 C07", "origin-term pipeline matching of DecodeSecret + call-tree walk binding the HMAC key of every entry point",
-   "DecodeSecret is DecodeString of base32.StdEncoding over ToUpper / TrimSpace / right re-padding computed after trimming (two accepted idioms, anything else undecided); on every exported entry point and every JS-registered function the key of every hmac.New reached is DecodeSecret(…)#0, and the decode error is returned and gates further work.",
-   "RFC 4648 decoding and Unicode case/space mapping are the standard library's; the structural rule cannot see e.g. that ToUpper maps U+017F to 'S' (recorded as a limitation)."),
+   "DecodeSecret is one strict base32.StdEncoding.DecodeString over ASCII-only upper-casing (the folding closure is checked over all code points) / TrimSpace / right re-padding computed after trimming (guard and amount folded over the eight remainders); on every exported entry point and every JS-registered function the key of every hmac.New reached is DecodeSecret(…)#0, the decode error is returned, is non-nil and gates further work; the REST endpoints hand the secret through and test it only for presence.",
+   "RFC 4648 decoding and strings.TrimSpace's space class are the standard library's."),
  "C08": ("other", "DESIGN.md §3 C08", "use-def confinement of the secret buffer, resolved callee identity, exhaustive path evaluation over the 256 hash values",
    "The one buffer is filled whole by crypto/rand.Read with the error checked, used for nothing but that fill and the whole-buffer unpadded StdEncoding encode, sized 20/32/64 for the three hashes and refused with an error for every other of the 256 values (all paths enumerated), with no state kept between calls.",
    "Quality of the OS random source is not decided. Trusted: crypto/rand.Read fills fully or fails."),
